@@ -43,6 +43,8 @@ def main():
                     rq = sh(f"{scratch}/target/release/dltsim check {q} {tier}", env=env)
                     sig = [l.strip() for l in rq.stdout.splitlines() if l.strip().startswith(("clause/signature", "HARNESS"))]
                     print(f"ALLPROPS {os.path.basename(d)} check={q} exit={rq.returncode} {sig[:3]}")
+                    if rq.returncode == 2:
+                        print("STDOUT-TAIL:", rq.stdout[-1500:]); print("STDERR-TAIL:", rq.stderr[-2500:])
                     sys.stdout.flush()
                 continue
             r = sh(f"{scratch}/target/release/dltsim check {prop} {tier}", env=env)
